@@ -308,7 +308,37 @@ func (fx *FnExec) staticCall(fr *frame, st *State, callee *ssa.Function, args []
 	if fx.eng.autoInline(callee) && fr.depth < fx.eng.maxInline {
 		return fx.inlineCall(fr, st, callee, args, rt, pos)
 	}
+	if pureStdlib(path, callee) {
+		// value-level standard-library helpers (strings, strconv, net/url getters, ...): no effect on the
+		// modelled heap; results unconstrained; assumed not to panic
+		fx.note("standard-library value helpers (" + path + "): treated as pure functions with unconstrained results, assumed not to panic")
+		return fx.freshResult(rt, "ret."+callee.Name(), true)
+	}
 	return fx.havocCall(fr, st, key, args, rt, "no contract")
+}
+
+// pureStdlib: package-level functions of value-oriented standard packages (not the Append* family, which
+// writes into its first argument), and the getter methods of net/url's URL and Userinfo.
+func pureStdlib(path string, callee *ssa.Function) bool {
+	n := callee.Name()
+	recv := callee.Signature.Recv()
+	switch path {
+	case "strings", "strconv", "unicode", "unicode/utf8", "math", "math/bits", "path", "path/filepath", "net/url":
+		if recv == nil {
+			return !strings.HasPrefix(n, "Append") && n != "NewReplacer" && n != "NewReader"
+		}
+		if path == "net/url" {
+			switch n {
+			case "String", "Hostname", "Port", "Username", "Password", "Redacted", "IsAbs", "Query", "RequestURI", "EscapedPath", "EscapedFragment":
+				return true
+			}
+		}
+	case "fmt":
+		return recv == nil && (n == "Sprintf" || n == "Sprint" || n == "Sprintln" || n == "Errorf")
+	case "net":
+		return recv == nil && (n == "ParseIP" || n == "SplitHostPort" || n == "JoinHostPort" || n == "ParseCIDR")
+	}
+	return false
 }
 
 func (fx *FnExec) zeroOrFresh(rt types.Type) Val {
@@ -458,9 +488,10 @@ func (fx *FnExec) havocAll(st *State) {
 	for _, r := range refs {
 		fx.copyObj(old, st, fx.private[r], r)
 	}
-	// ghost state is untouched by havoc (only contracts change it)
+	// ghost state is untouched by havoc (only contracts change it); so are fields declared stable
+	// (written only by their constructor - a structural obligation of every check)
 	for k, v := range old.heap {
-		if strings.HasPrefix(k, "GF|") {
+		if strings.HasPrefix(k, "GF|") || fx.eng.isStableKey(k) {
 			st.heap[k] = v
 		}
 	}
